@@ -623,3 +623,66 @@ func clNodeLayout(c *Ctx) {
 	}
 	c.Check(restored, setNext, nil, "setNext(0, ...) restores Node.level after zeroing the flag word it shares", "zeroing the first reference's flag word wipes the node's level: Size() and the per-level counters use level 0 for every node")
 }
+
+// The local/atomic decision of Stats.AddInt64/AddUint64 is made on the
+// RECEIVER (isLocal): the counter it updates must be a field of that same Stats
+// object, otherwise a shared counter is updated with a plain add.
+func clStatsAddOnOwnObject(c *Ctx) {
+	p := c.P
+	addI := p.Func("skiplist", "Stats", "AddInt64")
+	addU := p.Func("skiplist", "Stats", "AddUint64")
+	st := p.Named("skiplist", "Stats")
+	n := 0
+	for _, s := range p.AllCallSites(addI, addU) {
+		g := s.Parent()
+		if g.Package() == nil || !strings.HasPrefix(g.Package().Pkg.Path(), modPath) {
+			continue
+		}
+		args := callArgs(s)
+		if len(args) < 2 {
+			continue
+		}
+		n++
+		// base Stats object of the counter address: strip field/index addressing down to a *Stats value
+		base := args[1]
+		for k := 0; k < 6; k++ {
+			switch x := base.(type) {
+			case *ssa.IndexAddr:
+				base = x.X
+				continue
+			case *ssa.FieldAddr:
+				if pt, ok := x.X.Type().Underlying().(*types.Pointer); ok && types.Identical(pt.Elem(), st) {
+					base = x.X
+					k = 99
+					continue
+				}
+				base = x.X
+				continue
+			}
+			break
+		}
+		same := strip(base) == strip(args[0]) || sameAddr(base, args[0])
+		c.Check(same, g, s, "Stats.Add* updates a counter of the receiver's own Stats object",
+			"the counter belongs to another Stats object than the receiver whose isLocal flag selects plain vs. atomic add: a shared counter is updated non-atomically (lost updates under concurrent segment fills) or a local one atomically")
+	}
+	if n < 10 {
+		undecidedf("Stats.Add* call sites: only %d found", n)
+	}
+}
+
+// sameAddr: two address expressions denote the same field path from the same root.
+func sameAddr(a, b ssa.Value) bool {
+	for k := 0; k < 6; k++ {
+		a, b = strip(a), strip(b)
+		if a == b {
+			return true
+		}
+		fa, okA := a.(*ssa.FieldAddr)
+		fb, okB := b.(*ssa.FieldAddr)
+		if !okA || !okB || fa.Field != fb.Field {
+			return false
+		}
+		a, b = fa.X, fb.X
+	}
+	return false
+}
